@@ -18,6 +18,9 @@ ISA['operand_sets']['spx'] = {'operand_values': {'sx': {'type': 'indirect_regist
                                                         'offset': {'size': 8, 'byte_align': True}}}}
 ISA['instructions'] = dict(ISA['instructions'])
 ISA['instructions']['lda'] = {'bytecode': {'value': 0xB, 'size': 4}, 'operands': {'count': 1, 'operand_sets': {'list': ['spx']}}}
+ISA['operand_sets']['idx'] = {'operand_values': {'ix': {'type': 'indexed_register', 'register': 'b', 'bytecode': {'value': 2, 'size': 4},
+                                                        'index_operands': {'i': {'type': 'numeric', 'argument': {'size': 8, 'byte_align': True}}}}}}
+ISA['instructions']['ldq'] = {'bytecode': {'value': 0xC, 'size': 4}, 'operands': {'count': 1, 'operand_sets': {'list': ['idx']}}}
 
 # statement = (label or None, head or None, [operands], is_instruction)
 # operand = str | ('reg', name) | ('ireg', name, offset) | ('ind', text)
@@ -32,6 +35,7 @@ CATALOGUE = [
     (None, 'jmp', ['nop_x'], True),
     (None, 'n12', ['A1'], True),
     (None, 'lda', [('ireg', 'sp', '2')], True),
+    (None, 'ldq', [('xreg', 'b', '4')], True),
     (None, '.byte', ['1', '2', 'A1'], False),
     (None, '.2byte', ['lab'], False),
     (None, '.fill', ['2', '1'], False),
@@ -63,13 +67,13 @@ def sites(prog, kind):
         if kind == 'mnemonic-case' and is_instr:
             out.append(i)
         elif kind == 'register-case':
-            out += [(i, k) for k, o in enumerate(ops) if isinstance(o, tuple) and o[0] in ('reg', 'ireg')]
+            out += [(i, k) for k, o in enumerate(ops) if isinstance(o, tuple) and o[0] in ('reg', 'ireg', 'xreg')]
         elif kind == 'separator' and head and ops:
             out.append(i)
         elif kind == 'comma':
             out += [(i, k) for k in range(1, len(ops))]
         elif kind == 'bracket-padding':
-            out += [(i, k) for k, o in enumerate(ops) if isinstance(o, tuple) and o[0] in ('ireg', 'ind')]
+            out += [(i, k) for k, o in enumerate(ops) if isinstance(o, tuple) and o[0] in ('ireg', 'ind', 'xreg')]
         elif kind in ('indent', 'blank-line', 'comment'):
             out.append(i)
         elif kind == 'label-own-line' and label and head:
@@ -99,6 +103,9 @@ def render(prog, choice):
                 elif o[0] == 'ireg':
                     r = o[1].upper() if up else o[1]
                     t = f'[{pad}{r}{pad}+{pad}{o[2]}{pad}]'
+                elif o[0] == 'xreg':
+                    r = o[1].upper() if up else o[1]
+                    t = f'{r}{pad}+{pad}{o[2]}'
                 else:
                     t = f'[{pad}{o[1]}{pad}]'
             else:
@@ -137,9 +144,21 @@ def render(prog, choice):
     return CONSTS + '\n'.join(lines) + '\n'
 
 
+# programs about local-label regions: the same local name in several regions, non-local labels in front of statements that
+# define or use a local label
+SCOPE_PROGRAMS = [
+    [('lab', None, [], False), ('.dn', 'nop', [], True), (None, 'jmp', ['.dn'], True), ('second', 'jmp', ['.dn'], True), ('.dn', 'nop', [], True),
+     ('third', '.2byte', ['.dn'], False), ('.dn', 'nop', [], True), ('nop_x', 'nop', [], True)],
+    [('lab', 'nop', [], True), ('.lp', 'brr', ['.lp'], True), ('_fl', 'ldi', [('reg', 'a'), '.lp'], True), ('.lp', 'jmp', ['_fl'], True),
+     ('nop_x', 'brr', ['.q'], True), ('.q', 'nop', [], True)],
+    [('lab', None, [], False), (None, 'nop', [], True), ('.a1', '.byte', ['.a1'], False), ('g2', '.byte', ['.a1', '7'], False), ('.a1', 'nop', [], True),
+     ('nop_x', None, [], False)],
+]
+
+
 def programs(tier):
     q = tier == 'quick'
-    progs = []
+    progs = [list(p) for p in SCOPE_PROGRAMS]
     for s in CATALOGUE:
         progs.append(HEADER + [s] + FOOTER)
     pairs = list(itertools.product(CATALOGUE, repeat=2))
